@@ -209,6 +209,30 @@ theorem C03_client_failure_never_read (cm : List (String × Mech)) (adv : List S
     rw [List.getElem?_take]; simp [hlt, hi]
   exact (hall _ hm).1 b rfl
 
+/-- **A premature `<success/>` never authenticates.**  If the receiver sends `<success/>` while
+the mechanism, stepped with its payload, still says *more*, the exchange ends with an error,
+unauthenticated, nothing further is written — whatever the mechanism's response at that Step is
+(empty: "it has nothing left to send and was only waiting for the outcome", or not): the
+response plays no role in the decision. -/
+theorem C03_client_premature_success (mech : Mech) (hist : List Bytes) (p : Payload) (c : Bytes)
+    (rest : List CEv) (hp : p.decodeClient = some c) (hk : (mech (hist ++ [c])).kind = .more) :
+    (clientLoop mech hist (.success p :: rest)).authn = false ∧
+    (clientLoop mech hist (.success p :: rest)).err = .unexpected ∧
+    (clientLoop mech hist (.success p :: rest)).sent = [] := by
+  simp [clientLoop, hp, hk, fail]
+
+-- non-vacuity: a mutual-authentication mechanism that answers the nonce with an empty response
+-- and waits for the proof; the receiver sends the nonce in a <success/>
+example :
+    let mech : Mech := fun h => match h with
+      | [] => { kind := .more, resp := [1] }
+      | [_] => { kind := .more, resp := [] }
+      | _ => { kind := .done }
+    (clientNeg [("M", mech)] ["M"] [.success (.valid [7])]).authn = false ∧
+    (clientNeg [("M", mech)] ["M"] [.success (.valid [7])]).err = .unexpected ∧
+    (clientNeg [("M", mech)] ["M"] [.challenge (.valid [7]), .success (.valid [8])]).authn = true := by
+  decide
+
 /-- **Mechanism selection.**  The mechanism selected is the first one of the client's list
 whose name the receiver advertised: it is in both lists, and no earlier entry of the client's
 list is advertised. -/
